@@ -132,7 +132,7 @@ CORPUS = ["5f5f4100ffff", "7f7f6161ffff", "f800", "f81f", "f820", "f7", "f6", "9
 def run(tier, seed):
     res = Result(PROP, tier, seed)
     proved = common.prove(res, PROP, PROP_FILE, ["theories/Extract/ExtractCbor.vo"])
-    drv = common.build_harness()
+    drv = common.build_harness("c11")
     orc = common.build_oracle("cbor", ["cbor_model"])
     rng = random.Random(seed)
     n_struct = 12000 if tier == "quick" else 400000
@@ -223,7 +223,7 @@ def run(tier, seed):
 
 def replay(path):
     r = json.load(open(path))["replay"]
-    drv = common.build_harness()
+    drv = common.build_harness("c11")
     common.coq_build(["theories/Extract/ExtractCbor.vo"])
     orc = common.build_oracle("cbor", ["cbor_model"])
     line = "D\t" + r["input_hex"]
